@@ -1,2 +1,4 @@
 -- Root of the `TrionModel` library: everything that `lake build` must check.
 import TrionModel.Props.C17
+import TrionModel.Props.C04
+import TrionModel.Props.C19
